@@ -24,10 +24,16 @@ class Closed(Exception):
 
 
 class Client:
-    def __init__(self, port, tls=False, host="127.0.0.1", timeout=10.0, name=None, rcvbuf=None):
+    def __init__(self, port, tls=False, host="127.0.0.1", timeout=10.0, name=None, rcvbuf=None, bind=None):
         self.name = name
         self.port = port
-        if rcvbuf:
+        if bind:
+            # the client's own address (another loopback address: the server sees another host)
+            self.sock = socket.socket(socket.AF_INET, socket.SOCK_STREAM)
+            self.sock.bind((bind, 0))
+            self.sock.settimeout(timeout)
+            self.sock.connect((host, port))
+        elif rcvbuf:
             # a small receive buffer (set before connecting) lets unread output back up into the server
             self.sock = socket.socket(socket.AF_INET, socket.SOCK_STREAM)
             self.sock.setsockopt(socket.SOL_SOCKET, socket.SO_RCVBUF, rcvbuf)
